@@ -1,4 +1,5 @@
 import Ccp.Proofs.Search
+import Ccp.Proofs.SearchForms
 /-!
 # C04 — searches return exactly the matching lines, ordered and de-duplicated
 
@@ -14,7 +15,7 @@ What `chains` means is fixed by `mem_chains` (membership = `IsChain`) and `chain
 (strictly ascending in the lexicographic order of line numbers), restated here.
 -/
 namespace Ccp.C04
-open Ccp.Tree Ccp.Search
+open Ccp.Tree Ccp.Search Ccp.SearchForms
 
 /-! ### the specification is what it says -/
 
@@ -335,6 +336,248 @@ theorem hasChildWith_spec (t : T) (p : Nat) (crow : Row) (allCh : Bool)
   unfold hasChildWith reSearchChildren
   cases (offspring t allCh p).filter (hit crow) <;> simp
 
+/-! ### other spellings of the arguments and the `search_safe` guard (`Ccp.SearchForms`)
+
+The functions of `Ccp.Search` take rows; `Ccp.SearchForms` models what the code does with the
+arguments *before* it searches: a compiled `re.Pattern`, a `BaseCfgLine`, a tuple, a missing or
+ill-typed argument, and the refusal while an uncommitted `ConfigList.insert` is pending.  The
+theorems say that none of these spellings changes an answer (they agree with the `str` / list form
+or are refused with an error), so the specifications above apply to them verbatim. -/
+
+/-- **All-`str` arguments, nothing pending: the argument handling adds nothing.** -/
+theorem forms_str_agree (t : T) (o : Opts) (hp : o.pend = false) (p c : Row) (rs : List Row) (p1 : Option Row) (tup : Bool) :
+    findObjectsF t (.one (strArg p)) o = .ok (findObjects t p o.rev) ∧
+    findObjectsF t (.list (rs.map strArg)) o = liftErr (findObjectsList t rs o.rev) ∧
+    findObjectBranchesF t tup rs o = liftErr (findObjectBranches t rs o.emp o.rev) ∧
+    findParentObjectsListF t rs o = liftErr (findParentObjectsList t rs o.rev) ∧
+    findParentObjects2F t (strArg p) (strArg c) o = .ok (findParentObjects2 t p c o.rec_ o.rev) ∧
+    findChildObjectsF t (.one (strArg p)) (strArg c) o = .ok (findChildObjects2 t p c o.rec_ o.rev) ∧
+    findChildObjectsF t (.list (rs.map strArg)) (strArg c) o = liftErr (findChildObjectsList t rs o.rev) ∧
+    findParentObjectsWoChildF t (.one (strArg p)) (strArg c) p1 o = .ok (findParentObjectsWoChild2 t p c o.rec_ o.rev) ∧
+    findParentObjectsWoChildF t (.list (rs.map strArg)) { kind := .none } p1 o =
+      liftErr (findParentObjectsWoChildList t rs p1 o.rec_ o.rev) ∧
+    reSearchChildrenRootF t (strArg p) o = .ok (reSearchChildrenRoot t p o.rec_) := by
+  refine ⟨?_, ?_, ?_, ?_, ?_, ?_, ?_, ?_, ?_, ?_⟩
+  · simp [findObjectsF, findObjectsArg, strArg, rxOk, escOk, wsOk, hp]
+  · match rs with
+    | [] => simp [findObjectsF, findObjectsList, liftErr, FErr.ofSearch]
+    | [r] => simp [findObjectsF, findObjectsArg, findObjectsList, liftErr, strArg, rxOk, escOk, wsOk, hp]
+    | r :: r' :: l => simp [findObjectsF, findObjectsList, liftErr, FErr.ofSearch, strArg, rxOk]
+  · simp [findObjectBranchesF, hp]
+  · simp [findParentObjectsListF, hp]
+  · simp [findParentObjects2F, strArg, rxOk, escOk, wsOk, hp]
+  · simp [findChildObjectsF, strArg, rxOk, escOk, wsOk, hp]
+  · match rs with
+    | [] => simp [findChildObjectsF, findChildObjectsList, liftErr, FErr.ofSearch, hp]
+    | [r] => simp [findChildObjectsF, findObjectsArg, findChildObjectsList, liftErr, strArg, rxOk, escOk, wsOk, hp]
+    | r :: r' :: l =>
+      simp [findChildObjectsF, strArg, rxOk, escOk, wsOk, hp, Function.comp_def]
+  · simp [findParentObjectsWoChildF, woChildCore, strArg, rxOk, escOk, wsOk, hp]
+  · match rs, p1 with
+    | [], _ => simp [findParentObjectsWoChildF, findParentObjectsWoChildList, liftErr, FErr.ofSearch]
+    | [r], _ => simp [findParentObjectsWoChildF, findParentObjectsWoChildList, liftErr, FErr.ofSearch]
+    | [r, r'], none => simp [findParentObjectsWoChildF, findParentObjectsWoChildList, liftErr, FErr.ofSearch, strArg, rxOk]
+    | [r, r'], some x => simp [findParentObjectsWoChildF, findParentObjectsWoChildList, woChildCore, liftErr, strArg, rxOk, escOk, wsOk, hp]
+    | r :: r' :: r'' :: l, _ => simp [findParentObjectsWoChildF, findParentObjectsWoChildList, liftErr, FErr.ofSearch]
+  · simp [reSearchChildrenRootF, findObjectsArg, reSearchChildrenRoot, strArg, rxOk, escOk, wsOk, hp, findObjects]
+
+/-- **A compiled `re.Pattern` answers like the `str` with the same row** wherever it is accepted
+(no `ignore_ws`, no `escape_chars`): `find_objects` (also as the one element of a list), either
+argument of `find_parent_objects_wo_child`, the child of `find_child_objects`,
+`CiscoConfParse.re_search_children`, `has_child_with`, `obj.re_search`, `obj.re_search_children`. -/
+theorem pattern_form_agrees (t : T) (o : Opts) (hw : o.ws = false) (hx : o.esc = false) (p c : Row)
+    (p1 : Option Row) (i : Nat) :
+    findObjectsF t (.one (patArg p)) o = findObjectsF t (.one (strArg p)) o ∧
+    findObjectsF t (.list [patArg p]) o = findObjectsF t (.one (strArg p)) o ∧
+    (∀ a ∈ [strArg p, patArg p], ∀ b ∈ [strArg c, patArg c],
+      findParentObjectsWoChildF t (.one a) b p1 o = findParentObjectsWoChildF t (.one (strArg p)) (strArg c) p1 o) ∧
+    findChildObjectsF t (.one (strArg p)) (patArg c) o = findChildObjectsF t (.one (strArg p)) (strArg c) o ∧
+    reSearchChildrenRootF t (patArg p) o = reSearchChildrenRootF t (strArg p) o ∧
+    hasChildWithF t i (patArg c) o = hasChildWithF t i (strArg c) o ∧
+    reSearchF t i (patArg p) o = reSearchF t i (strArg p) o ∧
+    reSearchChildrenObjF t i (patArg c) o = reSearchChildrenObjF t i (strArg c) o := by
+  refine ⟨?_, ?_, ?_, ?_, ?_, ?_, ?_, ?_⟩
+  · simp [findObjectsF, findObjectsArg, strArg, patArg, rxOk, escOk, wsOk, hw, hx]
+  · simp [findObjectsF, findObjectsArg, strArg, patArg, rxOk, escOk, wsOk, hw, hx]
+  · intro a ha b hb
+    simp only [List.mem_cons, List.mem_nil_iff, or_false] at ha hb
+    rcases ha with rfl | rfl <;> rcases hb with rfl | rfl <;>
+      simp [findParentObjectsWoChildF, woChildCore, strArg, patArg, rxOk, escOk, wsOk, hw, hx]
+  · simp [findChildObjectsF, strArg, patArg, rxOk, escOk, wsOk, hw, hx]
+  · simp [reSearchChildrenRootF, findObjectsArg, strArg, patArg, rxOk, escOk, wsOk]
+  · simp [hasChildWithF, strArg, patArg, rxOk]
+  · simp [reSearchF, strArg, patArg, rxOk]
+  · simp [reSearchChildrenObjF, strArg, patArg, rxOk]
+
+/-- … and it is *refused*, never mis-read, where the expression would have to be rewritten:
+`ignore_ws` → `ValueError`, `escape_chars` → `TypeError` (unless the refusal for a pending insert or
+an earlier check comes first); as the `parentspec` of the two-argument `find_parent_objects` /
+`find_child_objects` it is refused with `InvalidParameters`; as the first element of the list form of
+`find_parent_objects_wo_child` it raises `TypeError` (`parentspec[1]` of a compiled pattern, F07). -/
+theorem pattern_form_refused (t : T) (o : Opts) (hp : o.pend = false) (p c : Row) :
+    (o.esc = true → findObjectsF t (.one (patArg p)) o = .error .typeError) ∧
+    (o.esc = false → o.ws = true → findObjectsF t (.one (patArg p)) o = .error .valueError) ∧
+    (o.esc = false → findParentObjects2F t (patArg p) (strArg c) o = .error .invalidParameters) ∧
+    (o.esc = false → findChildObjectsF t (.one (patArg p)) (strArg c) o = .error .invalidParameters) ∧
+    -- F07 again: the list form of wo-child subscripts its first element
+    (∀ b ∈ [strArg c, patArg c], ∀ p1, findParentObjectsWoChildF t (.list [patArg p, b]) { kind := .none } p1 o = .error .typeError) := by
+  refine ⟨?_, ?_, ?_, ?_, ?_⟩
+  · intro hx; simp [findObjectsF, findObjectsArg, patArg, rxOk, escOk, hx]
+  · intro hx hw; simp [findObjectsF, findObjectsArg, patArg, rxOk, escOk, wsOk, hx, hw, hp]
+  · intro hx; simp [findParentObjects2F, patArg, strArg, rxOk, hx, hp]
+  · intro hx; simp [findChildObjectsF, patArg, strArg, hx, hp]
+  · intro b hb p1
+    simp only [List.mem_cons, List.mem_nil_iff, or_false] at hb
+    rcases hb with rfl | rfl <;> simp [findParentObjectsWoChildF, patArg, strArg, rxOk]
+
+/-- **A tuple answers like the list** where a tuple is accepted (`find_object_branches`,
+`find_child_objects`), for any elements, flags and state. -/
+theorem tuple_form_agrees (t : T) (o : Opts) (rs : List Row) (l : List Arg) (c : Arg) :
+    findObjectBranchesF t true rs o = findObjectBranchesF t false rs o ∧
+    findChildObjectsF t (.tuple l) c o = findChildObjectsF t (.list l) c o := ⟨rfl, rfl⟩
+
+/-- a `BaseCfgLine` as `parentspec` of `find_child_objects` / `find_parent_objects_wo_child` is read as
+its text (the row of `obj.text` used as an expression), when `escape_chars` is off -/
+theorem line_as_parentspec (t : T) (o : Opts) (hx : o.esc = false) (r : Row) (n : Nat) (txt : Ccp.Py.Str) (c : Arg)
+    (p1 : Option Row) :
+    findChildObjectsF t (.one (lineArg r n txt)) c o = findChildObjectsF t (.one (strArg r)) c o ∧
+    findParentObjectsWoChildF t (.one (lineArg r n txt)) c p1 o = findParentObjectsWoChildF t (.one (strArg r)) c p1 o := by
+  constructor
+  · simp [findChildObjectsF, lineArg, strArg, escOk, hx]
+  · simp [findParentObjectsWoChildF, woChildCore, lineArg, strArg, rxOk, escOk, hx]
+
+/-- `find_objects(obj)` returns the lines equal to `obj` — the line `obj.linenum` if it carries `obj.text`,
+nothing otherwise; `exactmatch` and `reverse` change nothing -/
+theorem findObjects_line_spec (t : T) (o : Opts) (hp : o.pend = false) (hw : o.ws = false) (hx : o.esc = false)
+    (r : Row) (n : Nat) (txt : Ccp.Py.Str) :
+    ∃ l, findObjectsF t (.one (lineArg r n txt)) o = .ok l ∧
+      (∀ i, i ∈ l ↔ i = n ∧ n < t.size ∧ t.texts.getD n [] = txt) ∧ l.length ≤ 1 := by
+  refine ⟨revIf o.rev (eqLines t (lineArg r n txt)), ?_, ?_, ?_⟩
+  · simp [findObjectsF, findObjectsArg, lineArg, rxOk, hp, hw, hx]
+  · intro i
+    rw [mem_revIf, eqLines_eq]
+    show i ∈ (if n < t.size ∧ t.texts.getD n [] = txt then [n] else []) ↔ _
+    by_cases h : n < t.size ∧ t.texts.getD n [] = txt
+    · rw [if_pos h, List.mem_singleton]
+      exact ⟨fun hi => ⟨hi, h⟩, fun hi => hi.1⟩
+    · rw [if_neg h]
+      exact ⟨fun hi => absurd hi (by simp), fun hi => absurd hi.2 h⟩
+  · rw [length_revIf, eqLines_eq]
+    split <;> simp
+
+/-- **While an insert is pending no search answers.**  Every API answers with an error — the
+`NotImplementedError` of the `search_safe` guard, or the error of an argument check that comes
+before the guard — for all arguments and flags.  `has_child_with` consults the guard per examined
+child: it refuses on every line that has offspring (and answers `False` without looking on a line that
+has none). -/
+theorem pending_refused (t : T) (o : Opts) (hp : o.pend = true) (f : First) (c a : Arg) (rs : List Row)
+    (p1 : Option Row) (tup : Bool) (i : Nat) :
+    (∀ l, findObjectsF t f o ≠ .ok l) ∧
+    findObjectBranchesF t tup rs o = .error .notImplementedError ∧
+    findParentObjectsListF t rs o = .error .notImplementedError ∧
+    (∀ l, findParentObjects2F t a c o ≠ .ok l) ∧
+    findChildObjectsF t f c o = .error .notImplementedError ∧
+    (∀ l, findParentObjectsWoChildF t f c p1 o ≠ .ok l) ∧
+    (∀ l, reSearchChildrenRootF t a o ≠ .ok l) ∧
+    reSearchF t i a o = .error .notImplementedError ∧
+    reSearchChildrenObjF t i a o = .error .notImplementedError ∧
+    ((offspring t o.rec_ i).isEmpty = false → hasChildWithF t i a o = .error .notImplementedError) := by
+  have hfa : ∀ (a : Arg) ws esc rev l, findObjectsArg t a ws esc rev true ≠ .ok l := by
+    intro a ws esc rev l
+    unfold findObjectsArg
+    split
+    · simp
+    · split
+      · simp
+      · simp
+  have hwc : ∀ tup p c l, woChildCore t tup p c o ≠ .ok l := by
+    intro tup p c l
+    unfold woChildCore
+    simp only [hp]
+    split
+    · simp
+    · simp
+  refine ⟨?_, ?_, ?_, ?_, ?_, ?_, ?_, ?_, ?_, ?_⟩
+  · intro l
+    unfold findObjectsF
+    rw [hp]
+    split
+    · exact hfa _ _ _ _ l
+    · simp
+    · simp
+    · split
+      · exact hfa _ _ _ _ l
+      · simp
+    · split <;> simp
+  · simp [findObjectBranchesF, hp]
+  · simp [findParentObjectsListF, hp]
+  · intro l
+    unfold findParentObjects2F
+    simp only [hp]
+    split <;> simp
+  · simp [findChildObjectsF, hp]
+  · intro l
+    unfold findParentObjectsWoChildF
+    split
+    · exact hwc _ _ _ l
+    · exact hwc _ _ _ l
+    · split
+      · split
+        · simp
+        · split
+          · simp
+          · exact hwc _ _ _ l
+      · simp
+    · simp
+  · intro l
+    unfold reSearchChildrenRootF
+    rw [hp]
+    split
+    · rename_i l' h; exact absurd h (hfa _ _ _ _ l')
+    · simp
+  · simp [reSearchF, hp]
+  · simp [reSearchChildrenObjF, hp]
+  · intro h; simp [hasChildWithF, hp, h]
+
+/-- the line-object methods: `obj.re_search(r)` matches exactly when the row says so, and
+`obj.re_search_children(r, recurse)` returns exactly the direct / any-depth children matching `r` -/
+theorem objSearch_spec (t : T) (o : Opts) (hp : o.pend = false) (hf : o.rec_ = true → Forest t) (p : Nat) (r : Row) :
+    reSearchF t p (strArg r) o = .ok (hit r p) ∧
+    ∃ l, reSearchChildrenObjF t p (strArg r) o = .ok l ∧
+      ∀ c, c ∈ l ↔ Below t o.rec_ p c ∧ hit r c = true := by
+  refine ⟨by simp [reSearchF, strArg, rxOk, hp], reSearchChildren t p r o.rec_, by simp [reSearchChildrenObjF, strArg, rxOk, hp], ?_⟩
+  intro c
+  exact mem_reSearchChildren t o.rec_ hf p r c
+
+/-- **`regex_groups=True` — finding FC04f.**  Full statement (false of the code and of the model): for
+`empty_branches=False` the rows are those of the complete chains,
+`findObjectBranchesGroups t rs g false rev false = .ok (revIf' rev (((chains t rs).map (·.map some)).map (rowCells g)))`.
+What holds: for **either** value of `empty_branches` the result is one row of cells per maximal partial chain
+(`padded`), in chain order, reversed on request — the `None` filter runs after the conversion to cells and
+never fires.  Each row has one cell per expression; the cell of a missing line is `(None,)`, the cell of
+line `i` holds the capture groups of the expression on its text (`-` for a group that did not participate),
+or the line itself when the expression has no groups; every cell is a tuple (`Branch.__init__`). -/
+theorem branches_groups_partial (t : T) (rs : List Row) (h : 2 ≤ rs.length) (g : GroupTable) (emp rev : Bool) :
+    findObjectBranchesGroups t rs g emp rev false =
+      .ok (if rev then ((padded t rs).map (rowCells g)).reverse else (padded t rs).map (rowCells g)) ∧
+    (∀ b : Branch, (rowCells g b).length = b.length ∧ ∀ c ∈ rowCells g b, c.isTuple = true) ∧
+    (∀ idx, cellOf g idx none = ⟨true, [.none]⟩) ∧
+    (∀ idx i, groupsAt g idx i = some [] → cellOf g idx (some i) = ⟨false, [.line i]⟩) ∧
+    (∀ idx i x xs, groupsAt g idx i = some (x :: xs) →
+      cellOf g idx (some i) = ⟨true, (x :: xs).map itemOf⟩) := by
+  refine ⟨?_, ?_, fun _ => rfl, ?_, ?_⟩
+  · have hb := branches_padded_spec t rs h false
+    simp only [Bool.false_eq_true, if_false] at hb
+    simp [findObjectBranchesGroups, hb]
+  · intro b
+    refine ⟨by simp [rowCells], ?_⟩
+    intro c hc
+    simp only [rowCells, List.mem_map] at hc
+    obtain ⟨ie, _, rfl⟩ := hc
+    rfl
+  · intro idx i hg; simp [cellOf, hg]
+  · intro idx i x xs hg; simp [cellOf, hg]
+
 /-! ### non-vacuity: a concrete tree
 
 ```
@@ -382,5 +625,32 @@ example : findParentObjectsWoChildList exT [rowA, rowB] (some rowC) false false 
 /-- line 4 has a child with the empty text matching `^$`; it counts -/
 example : hasChildWith exT 4 rowE false = true ∧ (5 ∈ children exT 4 ∧ hit rowE 5 = true) := by decide
 example : hasChildWith exT 0 rowC true = true ∧ hasChildWith exT 0 rowC false = false := by decide
+
+/-! non-vacuity of the argument-form theorems (hypotheses `pend = false`, `ws = false`, `esc = false`, `pend = true`) -/
+example : findObjectsF exT (.one (patArg rowB)) { rev := true } = .ok [3, 1] := by rfl
+example : findObjectsF exT (.list [patArg rowB]) {} = .ok [1, 3] := by rfl
+example : findObjectsF exT (.one (patArg rowB)) { ws := true } = .error .valueError := by rfl
+example : findObjectsF exT (.one (patArg rowB)) { esc := true } = .error .typeError := by rfl
+example : findObjectsF exT (.one (lineArg [] 3 " b".toList)) { exact := true, rev := true } = .ok [3] := by rfl
+example : findObjectsF exT (.one (lineArg [] 2 " b".toList)) {} = .ok [] := by rfl
+example : findObjectBranchesF exT true [rowA, rowB, rowC] {} = .ok [[some 0, some 1, some 2]] := by rfl
+example : findChildObjectsF exT (.tuple [strArg rowA, strArg rowB]) { kind := .none } { rev := true } = .ok [3, 1] := by rfl
+example : findChildObjectsF exT (.one (lineArg rowA 0 "a".toList)) (patArg rowB) {} = .ok [1, 3] := by rfl
+example : findParentObjectsWoChildF exT (.one (patArg rowA)) (patArg rowB) none {} = .ok [4] := by rfl
+example : findParentObjects2F exT (patArg rowA) (strArg rowB) {} = .error .invalidParameters := by rfl
+example : findParentObjectsWoChildF exT (.list [patArg rowA, strArg rowB]) { kind := .none } none {} = .error .typeError := by rfl
+example : findObjectsF exT (.one (strArg rowB)) { pend := true } = .error .notImplementedError := by rfl
+example : findObjectsF exT (.list [strArg rowA, strArg rowB]) { pend := true } = .error .invalidParameters := by rfl
+example : hasChildWithF exT 0 (strArg rowB) { pend := true } = .error .notImplementedError ∧
+    hasChildWithF exT 2 (strArg rowB) { pend := true } = .ok false := ⟨by rfl, by rfl⟩
+example : reSearchChildrenObjF exT 0 (strArg rowC) { rec_ := true } = .ok [2] ∧
+    reSearchChildrenObjF exT 0 (strArg rowC) {} = .ok [] ∧ reSearchF exT 3 (patArg rowB) {} = .ok true := ⟨by rfl, by rfl, by rfl⟩
+
+example : findObjectBranchesGroups exT [rowA, rowB, rowC] [[some [], none, none, none, some [], none],
+      [none, some [some "b".toList, none], none, some [some "b".toList, none], none, none],
+      [none, none, some [], none, none, none]] false false false =
+    .ok [[⟨true, [.line 0]⟩, ⟨true, [.str "b".toList, .none]⟩, ⟨true, [.line 2]⟩],
+         [⟨true, [.line 0]⟩, ⟨true, [.str "b".toList, .none]⟩, ⟨true, [.none]⟩],
+         [⟨true, [.line 4]⟩, ⟨true, [.none]⟩, ⟨true, [.none]⟩]] := by rfl
 
 end Ccp.C04
